@@ -142,12 +142,16 @@ def decompress_code(codedata):
                 (codedata[in_i - 1] - 0x3c) * 16 +
                 (codedata[in_i] & 0xf))
             length = (codedata[in_i] >> 4) + 2
-            out[out_i:out_i + length] = \
-                out[out_i - offset:out_i - offset + length]
-            out_i += length
+            # Copy byte by byte: a block may overlap the bytes it produces
+            # (offset < length), and must not run past code_length.
+            for _ in range(length):
+                if out_i >= code_length:
+                    break
+                out[out_i] = out[out_i - offset]
+                out_i += 1
         in_i += 1
 
-    code = bytes(out).strip(b'\x00')
+    code = bytes(out[:out_i])
     if code.endswith(PICO8_FUTURE_CODE1):
         code = code[:-len(PICO8_FUTURE_CODE1)]
         if code[-1] == b'\n'[0]:
